@@ -4,7 +4,7 @@ use std::net::IpAddr;
 use crate::NetflowPacket;
 use crate::protocol::ProtocolTypes;
 use crate::static_versions::{v5::V5, v7::V7};
-use crate::variable_versions::data_number::FieldValue;
+use crate::variable_versions::data_number::{DataNumber, FieldValue};
 use crate::variable_versions::ipfix_lookup::IPFixField;
 use crate::variable_versions::v9_lookup::V9Field;
 use crate::variable_versions::{
@@ -145,6 +145,19 @@ fn uptime_millis_of(value: &FieldValue) -> Option<u32> {
     }
 }
 
+/// Value of a decoded unsigned number field whatever width it was sent in: IPFIX exporters
+/// may use reduced-size encoding (RFC 7011 section 6.2), e.g. a port in one byte.
+fn unsigned_of(value: &FieldValue) -> Option<u64> {
+    match value {
+        FieldValue::DataNumber(DataNumber::U8(n)) => Some(u64::from(*n)),
+        FieldValue::DataNumber(DataNumber::U16(n)) => Some(u64::from(*n)),
+        FieldValue::DataNumber(DataNumber::U24(n)) => Some(u64::from(*n)),
+        FieldValue::DataNumber(DataNumber::U32(n)) => Some(u64::from(*n)),
+        FieldValue::DataNumber(DataNumber::U64(n)) => Some(*n),
+        _ => None,
+    }
+}
+
 impl From<&V9> for NetflowCommon {
     fn from(value: &V9) -> Self {
         // Convert V9 to NetflowCommon
@@ -242,10 +255,12 @@ impl From<&IPFix> for NetflowCommon {
                             .and_then(|v| v.try_into().ok()),
                         src_port: value_map
                             .get(&IPFixField::SourceTransportPort)
-                            .and_then(|v| v.try_into().ok()),
+                            .and_then(unsigned_of)
+                            .and_then(|n| u16::try_from(n).ok()),
                         dst_port: value_map
                             .get(&IPFixField::DestinationTransportPort)
-                            .and_then(|v| v.try_into().ok()),
+                            .and_then(unsigned_of)
+                            .and_then(|n| u16::try_from(n).ok()),
                         protocol_number: value_map
                             .get(&IPFixField::ProtocolIdentifier)
                             .and_then(|v| v.try_into().ok()),
@@ -258,10 +273,12 @@ impl From<&IPFix> for NetflowCommon {
                         ),
                         first_seen: value_map
                             .get(&IPFixField::FlowStartSysUpTime)
-                            .and_then(|v| v.try_into().ok()),
+                            .and_then(unsigned_of)
+                            .and_then(|n| u32::try_from(n).ok()),
                         last_seen: value_map
                             .get(&IPFixField::FlowEndSysUpTime)
-                            .and_then(|v| v.try_into().ok()),
+                            .and_then(unsigned_of)
+                            .and_then(|n| u32::try_from(n).ok()),
                         src_mac: value_map
                             .get(&IPFixField::SourceMacaddress)
                             .and_then(|v| v.try_into().ok()),
